@@ -23,9 +23,9 @@ type Ident struct {
 // go-libaudit).
 type Group struct {
 	Kind    string   `json:"kind"`
-	Type    string   `json:"type"`    // record type that names the event
-	Lines   []string `json:"lines"`   // the records, in log order
-	Sec     int64    `json:"sec"`     // msg=audit(SEC.MSEC:SEQ)
+	Type    string   `json:"type"`  // record type that names the event
+	Lines   []string `json:"lines"` // the records, in log order
+	Sec     int64    `json:"sec"`   // msg=audit(SEC.MSEC:SEQ)
 	Msec    int      `json:"msec"`
 	Seq     uint32   `json:"seq"`
 	Ses     string   `json:"ses"`     // text of the ses= field ("" = no such field)
